@@ -35,6 +35,7 @@ TrReset == /\ l <= Len(Trace) /\ Ev.ev = "reset" /\ pend = <<>>
            /\ rs' = <<>> /\ cfg' = Ev.cfg /\ pend' = <<>> /\ inuse' = {} /\ l' = l + 1
 TrFault == /\ l <= Len(Trace) /\ Ev.ev = "fault"
            /\ Check("C06", FALSE, <<"fault", Ev.kind, Ev.detail>>) /\ Check("C07", FALSE, <<"fault", Ev.kind, Ev.detail>>)
+           /\ Check("C16", FALSE, <<"fault", Ev.kind, Ev.detail>>)      \* after a recovered panic later (overlapping) requests must be served normally
            /\ UNCHANGED <<rs, cfg, pend, inuse>> /\ l' = l + 1
 
 Call == /\ l <= Len(Trace) /\ Ev.ev = "call" /\ Ev.g \notin DOMAIN pend
